@@ -6,7 +6,11 @@ package collection
 // NewCache; only the ticker of its expiry wheel is replaced by one driven by hand (same
 // interval, slot count and expiry callback, taken from the wheel NewCache made), and the
 // +/-5% jitter is pinned through the mathx.Unstable override.  After every tick the number of
-// entries, and after every operation its result, are compared with the specification.
+// entries, and after every operation its result and the set of keys held (the cache's entry map;
+// after a store into the full cache this names the victim of the eviction), are compared with the
+// specification.  Counters reord_* / evict_after_reord_* report how often the behaviours changed
+// the recency order while the cache was below its limit (classes fill / del / age, decided by the
+// specification) and how often evictions followed (vacuity guard of checks/c17.py).
 
 import (
 	"errors"
@@ -167,7 +171,13 @@ func (cc *c17cache) tick(settled bool) error {
 	select {
 	case cc.tk.c <- time.Time{}:
 	case <-time.After(120 * time.Second):
-		return fmt.Errorf("tick not accepted by the run loop\n%s", c17Stacks())
+		// a stall of the whole process (overloaded machine) lets the timer and the run loop become ready together:
+		// the deadline counts only if the run loop still does not take the tick afterwards
+		select {
+		case cc.tk.c <- time.Time{}:
+		case <-time.After(30 * time.Second):
+			return fmt.Errorf("tick not accepted by the run loop\n%s", c17Stacks())
+		}
 	}
 	cc.T++
 	if settled {
@@ -264,6 +274,28 @@ func c17CompareGet(op, k string, v any, ok bool, whit bool, wv int) *c17fail {
 	return nil
 }
 
+// heldKeys: the keys of the cache's entry map (the state the statement calls "holds"), sorted.
+func (cc *c17cache) heldKeys() []string {
+	cc.c.lock.Lock()
+	defer cc.c.lock.Unlock()
+	keys := make([]string, 0, len(cc.c.data))
+	for k := range cc.c.data {
+		keys = append(keys, k)
+	}
+	sort.Strings(keys)
+	return keys
+}
+
+func c17Strs(v any) []string {
+	l := kit.List(v)
+	out := make([]string, 0, len(l))
+	for _, x := range l {
+		out = append(out, kit.Str(x))
+	}
+	sort.Strings(out)
+	return out
+}
+
 func runC17Case(c kit.Case, expire, limit int, rep *kit.Reporter) (v kit.Verdict) {
 	v = kit.Verdict{Case: c.Index, OK: true}
 	cc, err := newC17Cache(time.Duration(expire)*time.Second, limit)
@@ -274,6 +306,7 @@ func runC17Case(c kit.Case, expire, limit int, rep *kit.Reporter) (v kit.Verdict
 	size := 0
 	lastSched := "none"
 	nset := map[string]int{}
+	reords := map[string]bool{} // classes of recency changes made below capacity so far in this behaviour
 	for i, st := range c.Steps {
 		fail := func(f *c17fail) kit.Verdict {
 			if f.infra {
@@ -377,6 +410,28 @@ func runC17Case(c kit.Case, expire, limit int, rep *kit.Reporter) (v kit.Verdict
 		}
 		if limit > 0 && size == limit {
 			rep.Count("full", 1)
+		}
+		if hv, has := st["held"]; has {
+			want, got := c17Strs(hv), cc.heldKeys()
+			if strings.Join(want, ",") != strings.Join(got, ",") {
+				key := "C17:held-keys:after-" + op
+				if ev := c17Strs(st["evicted"]); len(ev) > 0 {
+					key = "C17:lru:wrong-victim:after-" + op
+					return fail(&c17fail{key: key, msg: fmt.Sprintf("%s(%s) into the full cache: holds %v afterwards, specification %v (least recently used: %v)",
+						op, k, got, want, ev)})
+				}
+				return fail(&c17fail{key: key, msg: fmt.Sprintf("cache holds %v, specification %v", got, want)})
+			}
+			if ro := kit.Str(st["reord"]); ro != "" && !reords[ro] {
+				reords[ro] = true
+				rep.Count("reord_"+ro, 1)
+			}
+			if len(kit.List(st["evicted"])) > 0 {
+				rep.Count("evictions", 1)
+				for ro := range reords {
+					rep.Count("evict_after_reord_"+ro, 1)
+				}
+			}
 		}
 	}
 	return v
